@@ -263,10 +263,18 @@ func (s *introspection) registerType(schema *schemabuilder.Schema) {
 		switch t := t.Inner.(type) {
 		case *graphql.Enum:
 			var enumVals []EnumValue
+			named := make(map[string]bool, len(t.ReverseMap))
 			for k, v := range t.ReverseMap {
 				val := fmt.Sprintf("%v", k)
 				enumVals = append(enumVals,
 					EnumValue{Name: v, Description: val, IsDeprecated: false, DeprecationReason: ""})
+				named[v] = true
+			}
+			// A value may go by several names; the reverse map holds one of them.
+			for _, name := range t.Values {
+				if !named[name] {
+					enumVals = append(enumVals, EnumValue{Name: name})
+				}
 			}
 			sort.Slice(enumVals, func(i, j int) bool { return enumVals[i].Name < enumVals[j].Name })
 			return enumVals
